@@ -5,11 +5,66 @@ import (
 	"fmt"
 	"strconv"
 	"strings"
+	"unicode"
+	"unicode/utf8"
 
 	"raven/internal/db"
 )
 
-// ParseQuotedString parses a quoted string argument, handling both quoted and unquoted strings
+// SplitCommandLine splits a command line into its fields like strings.Fields,
+// except that a quoted string (RFC 3501 section 4.3: "..." in which \" and \\
+// are escapes) that starts a field is kept in one field together with its
+// quotes and the spaces inside it: LOGIN "a b" "p q" has four fields.
+// A quote that is never closed is not special: the rest is split on spaces.
+func SplitCommandLine(line string) []string {
+	if !strings.Contains(line, "\"") {
+		return strings.Fields(line)
+	}
+
+	var fields []string
+	i := 0
+	for i < len(line) {
+		r, size := utf8.DecodeRuneInString(line[i:])
+		if unicode.IsSpace(r) {
+			i += size
+			continue
+		}
+
+		start := i
+		if line[i] == '"' {
+			if end := quotedStringEnd(line, i); end > 0 {
+				i = end
+			}
+		}
+		// the field ends at the next space
+		for i < len(line) {
+			r, size := utf8.DecodeRuneInString(line[i:])
+			if unicode.IsSpace(r) {
+				break
+			}
+			i += size
+		}
+		fields = append(fields, line[start:i])
+	}
+	return fields
+}
+
+// quotedStringEnd returns the index just after the quote that closes the quoted
+// string opening at line[start], or -1 if it is never closed
+func quotedStringEnd(line string, start int) int {
+	for i := start + 1; i < len(line); i++ {
+		switch line[i] {
+		case '\\':
+			i++ // the escaped character
+		case '"':
+			return i + 1
+		}
+	}
+	return -1
+}
+
+// ParseQuotedString parses a quoted string argument, handling both quoted and unquoted strings.
+// In a quoted string the escapes \" and \\ stand for " and \ (the inverse of QuoteString)
 func ParseQuotedString(arg string) string {
 	if len(arg) == 0 {
 		return ""
@@ -17,7 +72,18 @@ func ParseQuotedString(arg string) string {
 
 	// Handle quoted strings
 	if arg[0] == '"' && len(arg) >= 2 && arg[len(arg)-1] == '"' {
-		return arg[1 : len(arg)-1]
+		inner := arg[1 : len(arg)-1]
+		if !strings.Contains(inner, "\\") {
+			return inner
+		}
+		var b strings.Builder
+		for i := 0; i < len(inner); i++ {
+			if inner[i] == '\\' && i+1 < len(inner) && (inner[i+1] == '"' || inner[i+1] == '\\') {
+				i++
+			}
+			b.WriteByte(inner[i])
+		}
+		return b.String()
 	}
 
 	// Handle unquoted strings (including empty string represented as "")
